@@ -30,7 +30,9 @@ def run_op(ctx, real_fn, faults=None, twin_fn=None, rep=None):
     draw, intr = split_faults(faults, rep)
     line_events = 0
     at = None
-    if intr is not None and twin_fn is not None:
+    if intr is not None and "at_line" in intr:
+        at = int(intr["at_line"])  # absolute position: fires if the operation gets that far
+    elif intr is not None and twin_fn is not None:
         st = seam.get_state()
         es = seam.entropy_seed
         seam.begin_op(draw)
